@@ -432,7 +432,7 @@ def _pred_c05_trace(ops, impl):
             app = t[1]
             pending = None
         elif t[0] == "block" and out == "ok":
-            blocks[app] = (int(t[1]), int(t[2]))
+            blocks[app] = (blocks.get(app, default)[0] if t[1] == "same" else int(t[1]), int(t[2]))   # `block same T`: set_block at the current height
         elif t[0] == "next-block" and out == "ok":
             h, tm = blocks.get(app, default)
             blocks[app] = (h + 1, tm + 5_000_000_000)
